@@ -574,13 +574,17 @@ public:
         std::vector<size_t> offsets;
         PGMIndex<K, Epsilon, 0, Floating>::build(first, last, Epsilon, 0, tmp, offsets);
 
+        // The keys are widened to 64 bits because sd_vector computes the size of its universe as the last key plus one,
+        // which wraps around to zero in the type K when the rebased key of the last segment is the maximum of a 32-bit K
+        std::vector<uint64_t> keys;
+        keys.reserve(tmp.size());
         segments.reserve(tmp.size());
         for (auto &x: tmp) {
             segments.push_back(x);
-            x.key -= first_key;
+            keys.push_back(x.key - first_key);
         }
 
-        ef = decltype(ef)(tmp.begin(), std::prev(tmp.end()));
+        ef = decltype(ef)(keys.begin(), std::prev(keys.end()));
     }
 
     /**
